@@ -21,6 +21,15 @@ returned by `m.st(...)`; the gradients / right-hand sides come from the *spec*, 
       * shape: a k-row block returns k values (a float when k == 1), a bound block one value per entry.
     These identities hold for *every* optimal dual solution, so degenerate vertices cannot raise a false alarm.
 A solve that is not reported optimal, or a dual that is not available, makes the case vacuous.
+
+Call history of dual() (every case): after the solve every constraint object is asked twice in a row in st() order
+and once more in reverse order; the three answers of an object must be identical (dual() must not edit the stored
+multipliers) and the certificate identities are evaluated for each of the three answer sets.
+Additional family: Bounds written on slices whose indices are not increasing (x[::-1] >= c, x[3:0:-1] <= c,
+x[[2,0,1]] <= c, x[[1,0]] >= c; scalar right-hand side) and models with two separate upper-bound and two separate
+lower-bound Bounds objects on disjoint entries, for all four objective directions, min and max: the objective entries
+have distinct magnitudes, so the reduced costs differ per entry and entry k of dual() is checked against the k-th entry
+of the slice as written (a sorted / permuted answer breaks stationarity).
 """
 import itertools
 import numpy as np
@@ -31,8 +40,11 @@ CHUNK = 16
 FLOOR = 0.5
 RULE = ('every LP of the grammar {front end} x {n<=3} x {sense mix of 1..B row blocks of 1-2 rows} x {block style} x '
         '{Bounds pattern} x {bounds/guard position} x {min,max} x {objective direction} x {default, ECOS, Gurobi}; '
-        'a case is non-trivial when the solve is optimal, all identities were evaluated, and at least one enumerated '
-        '(non-guard) row or bound constraint carries a dual value of magnitude > 1e-6 (measured)')
+        'plus {non-increasing slice / index-list Bounds, 2+2 separate Bounds objects} x {0-1 row blocks} x 4 directions; '
+        'every constraint object is asked dual() three times (twice forward, once in reverse order); '
+        'a case is non-trivial when the solve is optimal, all identities were evaluated on all three answer sets, and at '
+        'least one enumerated (non-guard) row or bound constraint carries a dual value of magnitude > 1e-6 (measured); the '
+        'outcome label says whether a non-increasing slice carried distinct duals (permutation visible)')
 ASSUMPTIONS = [
     'certificate identities are necessary conditions for any optimal dual: degeneracy cannot cause false alarms',
     'tolerance 1e-6 relative to the largest multiplier (1e-5 for ECOS, an interior point method)',
@@ -72,6 +84,46 @@ BPATS = {
     'tight': [('L', None, 'tightL'), ('U', None, 'tightU')],
 }
 IFACES = ['def', 'eco', 'grb']
+
+# Bounds on slices whose indices are NOT increasing, and several separate Bounds objects of one kind on disjoint
+# entries (index forms: [i0, i1] contiguous | ['s', start, stop, step] python slice | ['l', i, j, ...] index list).
+# Scalar right-hand sides; the objective entries have distinct magnitudes, so the reduced costs differ per entry and
+# a permuted dual() is visible.  Entry k of dual() belongs to the k-th entry of the slice *as written*.
+def _perm_patterns(n):
+    rev = ['s', None, None, -1]
+    if n == 2:
+        perm = ['l', 1, 0]
+        return {
+            'revL': [('L', rev, -1.0)], 'revU': [('U', rev, 1.5)],
+            'permL': [('L', perm, -1.0)], 'permU': [('U', perm, 1.5)],
+            'revL+permU': [('L', rev, -1.0), ('U', perm, 1.5)],
+            'permL+revU': [('L', perm, -1.0), ('U', rev, 1.5)],
+            '2L2U': [('L', [0, 1], -1.0), ('U', [0, 1], 1.5), ('L', [1, 2], -0.75), ('U', [1, 2], 1.25)],
+            '2U2L': [('U', [1, 2], 1.25), ('U', [0, 1], 1.5), ('L', [1, 2], -0.75), ('L', [0, 1], -1.0)],
+        }
+    if n == 3:
+        perm = ['l', 2, 0, 1]
+        return {
+            'revL': [('L', rev, -1.0)], 'revU': [('U', rev, 1.5)],
+            'revpartL': [('L', ['s', 3, 0, -1], -1.0)], 'revpartU': [('U', ['s', 3, 0, -1], 1.5)],
+            'permL': [('L', perm, -1.0)], 'permU': [('U', perm, 1.5)],
+            'revL+permU': [('L', rev, -1.0), ('U', perm, 1.5)],
+            'permL+revU': [('L', perm, -1.0), ('U', rev, 1.5)],
+            '2L2U': [('L', [0, 1], -1.0), ('U', ['s', 1, None, -1], 1.5), ('L', ['l', 2, 1], -0.75), ('U', [2, 3], 1.25)],
+            '2U2L': [('U', ['l', 2, 0], 1.5), ('U', [1, 2], 1.25), ('L', ['s', None, 0, -1], -1.0), ('L', [0, 1], -0.75)],
+        }
+    return {}
+
+
+def _ids(idx, n):
+    """Variable entries a bound item addresses, in the order of the slice as written."""
+    if idx is None:
+        return list(range(n))
+    if idx[0] == 's':
+        return list(range(n))[slice(idx[1], idx[2], idx[3])]
+    if idx[0] == 'l':
+        return [int(i) for i in idx[1:]]
+    return list(range(idx[0], idx[1]))
 
 
 def _block(bi, k, n, pal):
@@ -117,7 +169,10 @@ def _items(n, blocks, bpat, bpos, gpos, pal, style):
         # slack 0.5 for the first block, 1.0 for later ones: different rows become active for different objectives
         rows.append(['row', A, s, _rhs(A, s, n, 0.5 + 0.5 * (bi % 2)), style if k == 1 or style != 'sum' else 'mat'])
     bnds = []
-    for kind, idx, v in BPATS[bpat]:
+    for kind, idx, v in (BPATS[bpat] if isinstance(bpat, str) else bpat):
+        if idx is not None and idx[0] in ('s', 'l'):
+            bnds.append(['bnd', kind, idx, float(v)])
+            continue
         if idx is not None:
             i0 = idx[0] % n if idx[0] < 0 else idx[0]
             i1 = n if idx[1] is None else idx[1]
@@ -182,6 +237,23 @@ def gen_cases(tier, seed):
                                                'iface': iface, 'tag': '%s|%s|%s|%s' % (
                                                    '+'.join('%d%s' % b for b in blocks), bpat, bpos, gpos),
                                                'style': style}
+    # non-increasing slices / several Bounds objects of one kind (all four objective directions, min and max)
+    for pal in pals:
+        for n in (2, 3):
+            cfgs = [[]] + [[(k, sn)] for sn in SENSES for k in (1, 2)]
+            if thorough:
+                cfgs += [[(1, a), (2, b)] for a in SENSES for b in SENSES]
+            for blocks in cfgs:
+                for pname, pat in _perm_patterns(n).items():
+                    for bpos, gpos in (('last', 'last'), ('first', 'first')):
+                        for style, fe in ((('mat', 'ro'), ('mat', 'lp'), ('expr', 'ro')) if thorough else (('mat', 'ro'), ('mat', 'lp'))):
+                            items = _items(n, blocks, pat, bpos, gpos, pal, style)
+                            for c in OBJ[n]:
+                                for d in ('min', 'max'):
+                                    for iface in IFACES:
+                                        yield {'fe': fe, 'n': n, 'items': items, 'dir': d, 'c': c, 'iface': iface,
+                                               'tag': '%s|%s|%s|%s' % ('+'.join('%d%s' % b for b in blocks) or '0', pname, bpos, gpos),
+                                               'style': style}
     if thorough:
         # history variant: the model is first solved by another interface, dual() must describe the last solve
         for pal in pals:
@@ -204,7 +276,8 @@ def bounds(tier):
     th = tier == 'thorough'
     return {'n_max': 3, 'row_blocks_max': 3 if th else 2, 'rows_per_block': [1, 2], 'bounds_patterns': len(BPATS),
             'palettes': 4 if th else 1, 'objective_directions_per_palette': 2,
-            'interfaces': IFACES, 'front_ends': ['ro', 'lp'], 'history_variant': th}
+            'interfaces': IFACES, 'front_ends': ['ro', 'lp'], 'history_variant': th,
+            'dual_calls_per_object': 3, 'non_increasing_slice_patterns': sorted(set(_perm_patterns(2)) | set(_perm_patterns(3)))}
 
 
 def exhaustive(tier):
@@ -249,7 +322,14 @@ def _build(case):
                 c = (lhs <= rhs) if s == '<=' else (lhs >= rhs) if s == '>=' else (lhs == rhs)
         else:
             _, kind, idx, val = it
-            t = x if idx is None else x[idx[0]:idx[1]]
+            if idx is None:
+                t = x
+            elif idx[0] == 's':
+                t = x[slice(idx[1], idx[2], idx[3])]
+            elif idx[0] == 'l':
+                t = x[[int(i) for i in idx[1:]]]
+            else:
+                t = x[idx[0]:idx[1]]
             v = np.array(val, dtype=float) if isinstance(val, list) else float(val)
             if isinstance(val, list) and idx is not None:
                 # a slice compared with an array is a LinConstr in rsome, not a Bounds object: keep numbers scalar there
@@ -287,54 +367,80 @@ def run_case(case):
         return {'status': 'vacuous', 'outcome': 'no dual available', 'ops': nops}
     objval = float(m.get())
     sign = 1 if case['dir'] == 'min' else -1
-    rows, bnds = [], []
-    nz_user = False
-    nz_b = False
-    for it, con in pairs:
-        d = con.dual()
-        nops += 1
-        if d is None:
+    tol = 1e-5 if iface == 'eco' else 1e-6
+    # history: forward order with every object asked twice in a row, then every object once more in reverse order.
+    # All answers of one object must be identical, and the certificate must hold for each of the three answer sets.
+    answers = {}
+    for j, (it, con) in enumerate(pairs):                 # forward, every object twice in a row
+        answers[j] = [con.dual(), con.dual()]
+    for j in range(len(pairs) - 1, -1, -1):               # and once more in reverse order
+        answers[j].append(pairs[j][1].dual())
+    nops += 3 * len(pairs)
+    for j, (it, con) in enumerate(pairs):
+        d0 = answers[j][0]
+        if d0 is None:
             return {'status': 'violation', 'sig': _sig(case, 'dual() is None'), 'ops': nops,
                     'detail': 'dual() returned None although solution.y is available'}
-        if it[0] == 'row':
-            _, A, s, b, st = it
-            if not isinstance(con, lp.LinConstr):
-                return {'status': 'harness_error', 'detail': 'row item did not give a LinConstr: %r' % type(con)}
-            k = len(b)
-            if not _shape_ok(d, k):
-                return {'status': 'violation', 'sig': _sig(case, 'shape'), 'ops': nops,
-                        'detail': 'row block with %d rows: dual() = %r' % (k, d)}
-            G = np.array(A, dtype=float)
-            h = np.array(b, dtype=float)
-            if s == '>=':
-                G, h = -G, -h
-            y = np.asarray(d, dtype=float).reshape(-1)
-            rows.append((G, h, s == '==', y))
-            if st != 'guard' and np.abs(y).max() > 1e-6:
-                nz_user = True
-        else:
-            _, kind, idx, val = it
-            if not isinstance(con, lp.Bounds):
-                return {'status': 'harness_error', 'detail': 'bound item did not give a Bounds: %r' % type(con)}
-            ids = list(range(n)) if idx is None else list(range(idx[0], idx[1]))
-            if not _shape_ok(d, len(ids)):
-                return {'status': 'violation', 'sig': _sig(case, 'shape'), 'ops': nops,
-                        'detail': 'bound block with %d entries: dual() = %r' % (len(ids), d)}
-            vals = np.array(val, dtype=float).reshape(-1) if isinstance(val, list) else np.full(len(ids), float(val))
-            dv = np.asarray(d, dtype=float).reshape(-1)
-            bnds.append((kind, ids, vals, dv))
-            if np.abs(dv).max() > 1e-6:
-                nz_b = True
-    tol = 1e-5 if iface == 'eco' else 1e-6
-    bad = prog.kkt_check(case['c'], sign, objval, rows, bnds, n, tol=tol)
-    if bad:
-        return {'status': 'violation', 'sig': _sig(case, '+'.join(sorted(set(b[0] for b in bad)))), 'ops': nops,
-                'detail': '; '.join('%s: %s' % b for b in bad)[:900] + ' | x=%s obj=%s' % (
-                    np.round(np.asarray(x.get()), 6).tolist(), objval)}
+        for which, dk in (('second call', answers[j][1]), ('call in reverse order', answers[j][2])):
+            same = dk is not None and np.shape(dk) == np.shape(d0) and np.array_equal(np.asarray(dk, dtype=float),
+                                                                                      np.asarray(d0, dtype=float))
+            if not same:
+                return {'status': 'violation', 'sig': _sig(case, 'dual() not repeatable'), 'ops': nops,
+                        'detail': 'constraint #%d (%s): first call %r, %s %r' % (j, it[0] + ':' + str(it[1] if it[0] == 'bnd' else it[2]),
+                                                                                d0, which, dk)}
+    nz_user = nz_b = perm_seen = False
+    for rnd in (0, 1, 2):
+        rows, bnds = [], []
+        for j, (it, con) in enumerate(pairs):
+            d = answers[j][rnd]
+            if it[0] == 'row':
+                _, A, s, b, st = it
+                if not isinstance(con, lp.LinConstr):
+                    return {'status': 'harness_error', 'detail': 'row item did not give a LinConstr: %r' % type(con)}
+                k = len(b)
+                if not _shape_ok(d, k):
+                    return {'status': 'violation', 'sig': _sig(case, 'shape'), 'ops': nops,
+                            'detail': 'row block with %d rows: dual() = %r' % (k, d)}
+                G = np.array(A, dtype=float)
+                h = np.array(b, dtype=float)
+                if s == '>=':
+                    G, h = -G, -h
+                y = np.asarray(d, dtype=float).reshape(-1)
+                rows.append((G, h, s == '==', y))
+                if st != 'guard' and np.abs(y).max() > 1e-6:
+                    nz_user = True
+            else:
+                _, kind, idx, val = it
+                if not isinstance(con, lp.Bounds):
+                    return {'status': 'harness_error', 'detail': 'bound item did not give a Bounds: %r' % type(con)}
+                ids = _ids(idx, n)
+                if not _shape_ok(d, len(ids)):
+                    return {'status': 'violation', 'sig': _sig(case, 'shape'), 'ops': nops,
+                            'detail': 'bound block with %d entries: dual() = %r' % (len(ids), d)}
+                vals = np.array(val, dtype=float).reshape(-1) if isinstance(val, list) else np.full(len(ids), float(val))
+                dv = np.asarray(d, dtype=float).reshape(-1)
+                bnds.append((kind, ids, vals, dv))        # entry k of dual() <-> k-th entry of the slice as written
+                if np.abs(dv).max() > 1e-6:
+                    nz_b = True
+                if ids != sorted(ids) and len(set(np.round(dv, 6).tolist())) > 1:
+                    perm_seen = True                      # a permutation of this block's dual would change the certificate
+        bad = prog.kkt_check(case['c'], sign, objval, rows, bnds, n, tol=tol)
+        if bad:
+            return {'status': 'violation', 'sig': _sig(case, '+'.join(sorted(set(b[0] for b in bad)))), 'ops': nops,
+                    'detail': ('answers of the %s round: ' % ('first', 'second', 'reverse-order')[rnd]) +
+                              '; '.join('%s: %s' % b for b in bad)[:800] + ' | x=%s obj=%s' % (
+                        np.round(np.asarray(x.get()), 6).tolist(), objval)}
     what = {(0, 0): 'guard rows only', (1, 0): 'enumerated rows priced', (0, 1): 'Bounds priced',
             (1, 1): 'rows and Bounds priced'}[(int(nz_user), int(nz_b))]
-    return {'status': 'pass', 'outcome': 'certificate ok (%s)' % what,
-            'nontrivial': bool(nz_user or nz_b), 'ops': nops, 'validated': 1}
+    nup = sum(1 for it, _ in pairs if it[0] == 'bnd' and it[1] == 'U')
+    nlo = sum(1 for it, _ in pairs if it[0] == 'bnd' and it[1] == 'L')
+    extra = ''
+    if perm_seen:
+        extra += ', distinct duals on a non-increasing slice'
+    if nup >= 2 and nlo >= 2:
+        extra += ', 2+2 Bounds objects'
+    return {'status': 'pass', 'outcome': 'certificate ok x3 answer sets (%s%s)' % (what, extra),
+            'nontrivial': bool(nz_user or nz_b), 'ops': nops, 'validated': 1, 'states': 3, 'transitions': 3 * len(pairs)}
 
 
 def _shape_ok(d, k):
